@@ -306,6 +306,14 @@ pub struct RunRecord {
     pub late_starts: u64,
     #[serde(default)]
     pub clock_jumps: u64,
+    /// Dense build only: basic-block edges executed inside library calls, and how many of
+    /// them were offered to the scheduler as preemption points.
+    #[serde(default)]
+    pub edges: u64,
+    #[serde(default)]
+    pub edge_offers: u64,
+    #[serde(default)]
+    pub dense: bool,
     pub recompiles: u64,
     pub stalled: u64,
     pub cold: bool,
